@@ -1,4 +1,5 @@
 import LitexProofs.Clock.Params
+import LitexProofs.Clock.IntelGowin
 import LitexProofs.Clock.QRat
 import LitexModel.Generated.ClockRanges
 /-
@@ -13,7 +14,8 @@ import LitexModel.Generated.ClockRanges
   Every theorem quantifies over ALL device tables (hence all vendors' classes, speed grades and any future change of
   a range), all input frequencies and all lists of (frequency, phase, margin) requests.
   Covered by theorems: Xilinx generic search (S6PLL, S6DCM, S7PLL, S7MMCM, USPLL, USMMCM, USPPLL) and USPMMCM,
-  ECP5, iCE40, NX.  Intel, Gowin GW1N/GW2A, NXOSCA, GW1NOSC: model + correspondence only.
+  ECP5, iCE40, NX, Intel (ALTPLL best-of search), Gowin GW1N/GW2A, NXOSCA and GW1NOSC divider choices.
+  GW5A and Efinix Trion: oracle-only tie (no Lean model).
 -/
 namespace Litex.C20
 open Litex.Clock
@@ -198,5 +200,98 @@ theorem nx_params_match_partial (r : NReq) (c : NCfg) (h1 : c.clkiDiv = 1) :
 /-- Negative witness (real NX table): 100 MHz in, 425 MHz out → clki_div = 2 but REF_MMD_DIG = 1. -/
 def reqNdiv : NReq := ⟨⟨100000000, 1⟩, [⟨⟨425000000, 1⟩, ⟨0, 1⟩, ⟨0, 1⟩⟩]⟩
 example : nSearch Gen.nx reqNdiv = some ⟨2, 17, [2]⟩ ∧ (nParams reqNdiv ⟨2, 17, [2]⟩).1 ≠ 2 := by decide +kernel
+
+/-! ## iCE40 FILTER_RANGE (`do_finalize`) -/
+
+/-- The placed FILTER_RANGE `v` is in 1..6 and the PFD frequency is below the `v`-th threshold of the code's table. -/
+theorem ice40_filter_range (clkin : Q) (divr v : Nat) (h : iFilterRange clkin divr = some v) :
+    1 ≤ v ∧ v ≤ 6 ∧
+    (clkin.divNat (divr + 1)).lt (Q.ofNat ([17000000, 26000000, 44000000, 66000000, 101000000, 133000000].getD (v - 1) 0)) = true :=
+  iFilterRange_spec clkin divr v h
+
+/-! ## Intel ALTPLL (`IntelClocking.compute_config` / `do_finalize`) -/
+
+/-- search_sound: the best-of search only returns valid configurations (n, m inside the counter ranges, PFD and VCO
+    inside their windows, every c inside its range with `vco/c` within the output's margin).
+    Hypotheses: the PFD limits and the input frequency are positive rationals. -/
+theorem intel_search_sound (d : ADev) (r : AReq) (c : ACfg) (h1 : 0 < r.clkin.den * d.pfdMax.num)
+    (h2 : 0 < r.clkin.den * d.pfdMin.num) (h : aSearch d r = some c) : AValid d r c :=
+  aSearch_sound h1 h2 h
+
+/-- search_complete: "No PLL config found" only if no (n, m, c…) of the declared ranges is valid. -/
+theorem intel_search_complete (d : ADev) (r : AReq) (h1 : 0 < r.clkin.den * d.pfdMax.num)
+    (h2 : 0 < r.clkin.den * d.pfdMin.num) (h : aSearch d r = none) : ∀ c, ¬ AValid d r c :=
+  aSearch_complete h1 h2 h
+
+/-- a refusal on the reduced table: 50 MHz → 133.7 MHz exactly. -/
+example : aSearch (⟨1, 3, 1, 41, ⟨1, 17, 1, 1⟩, ⟨5000000, 1⟩, ⟨325000000, 1⟩, ⟨600000000, 1⟩, ⟨1300000000, 1⟩, 5⟩ : ADev)
+    ⟨⟨50000000, 1⟩, ⟨0, 1⟩, [⟨⟨133700000, 1⟩, ⟨0, 1⟩, ⟨0, 1⟩⟩]⟩ = none := by decide +kernel
+
+/-- params_match: `CLKn_DIVIDE_BY = c·n`, `CLKn_MULTIPLY_BY = m`, `CLKn_PHASE_SHIFT` computed from THAT output's
+    recomputed frequency `vco/c`; `clkin·MULTIPLY_BY/DIVIDE_BY` is that frequency. -/
+theorem intel_params_match (r : AReq) (c : ACfg) :
+    aParams r c = ((c.cs.zip r.outs).map fun (cv, o) => (cv.mulNat c.n, c.m, aPhasePs ((c.vco r).div cv) o.phase)) ∧
+    ∀ cv : Q, ((r.clkin.mulNat c.m).div (cv.mulNat c.n)).beq ((c.vco r).div cv) = true :=
+  ⟨aParams_spec r c, altpll_freq r c⟩
+
+/-- Phase-shift formula: a 360° request is one period of the output itself (10¹²/f ps, truncated) — not of the
+    input clock — and 0° is 0 ps. -/
+theorem intel_phase_shift_formula (f : Q) (k : Nat) :
+    aPhasePs f ⟨360, 1⟩ = ((10 ^ 12 * f.den / f.num : Nat) : Int) ∧ aPhasePs f ⟨0, k⟩ = 0 :=
+  ⟨aPhasePs_full_turn f, aPhasePs_zero f k⟩
+
+/-! non-vacuity (a reduced table keeps the kernel evaluation short: n 1..2, m 1..40, c 1..16, Cyclone windows):
+    50 MHz in, 133 MHz ± 1 % at 90° → n = 2, m = 32, c = 6 (50·32/12 = 133.33 MHz), DIVIDE_BY 12, 1875 ps. -/
+def smallA : ADev := ⟨1, 3, 1, 41, ⟨1, 17, 1, 1⟩, ⟨5000000, 1⟩, ⟨325000000, 1⟩, ⟨600000000, 1⟩, ⟨1300000000, 1⟩, 5⟩
+def reqA : AReq := ⟨⟨50000000, 1⟩, ⟨0, 1⟩, [⟨⟨133000000, 1⟩, ⟨90, 1⟩, ⟨1, 100⟩⟩]⟩
+example : aSearch smallA reqA = some ⟨2, 32, [⟨6, 1⟩]⟩ ∧
+    aParams reqA ⟨2, 32, [⟨6, 1⟩]⟩ = [(⟨12, 1⟩, 32, 1875)] := by decide +kernel
+example : aPhasePs ⟨100000000, 1⟩ ⟨90, 1⟩ = 2500 := by decide
+
+/-! ## Gowin GW1N / GW2A (`GW1NPLL.compute_config` / `do_finalize`, tree with the freq_max fix) -/
+
+/-- search_sound: an accepted request gives IDIV/FBDIV/ODIV inside the primitive's ranges, PFD and VCO inside the
+    device windows, an even CLKOUTD divider, and every requested clock on a pin (CLKOUT/CLKOUTP: clkin·fdiv/idiv,
+    CLKOUTD3: /3, CLKOUTD: /SDIV) whose frequency passes the helper's acceptance test — in particular a clock routed
+    to CLKOUTD really needs the divider that was placed as SDIV.  (Which ClockDomain finally drives a pin when two
+    clocks resolve to the same pin is the open finding C20-gw1n-same-pin-overwrite; the statement is per clock.) -/
+theorem gw1n_search_sound (d : GDev) (r : GReq) (c : GCfg) (h : gSearch d r = .ok c) : GValid d r c :=
+  gSearch_sound h
+
+/-- params_match: (IDIV_SEL, FBDIV_SEL, ODIV_SEL, DYN_SDIV_SEL) = (idiv−1, fdiv−1, odiv, sdiv); the primitive's
+    `clkin·(FBDIV_SEL+1)/(IDIV_SEL+1)` is the configured CLKOUT frequency. -/
+theorem gw1n_params_match (d : GDev) (r : GReq) (c : GCfg) (h : gSearch d r = .ok c) :
+    (gParams c).1 + 1 = c.idiv ∧ (gParams c).2.1 + 1 = c.fdiv ∧ (gParams c).2.2.1 = c.odiv ∧ (gParams c).2.2.2 = c.sdiv ∧
+    gOutF r ((gParams c).1 + 1) ((gParams c).2.1 + 1) = gOutF r c.idiv c.fdiv := by
+  obtain ⟨h1, h2, _⟩ := gSearch_sound h
+  rw [mem_pyRange] at h1 h2
+  exact gParams_spec r c h1.1 h2.1
+
+/-! non-vacuity: GW1NR, 27 MHz in, 108 MHz on CLKOUT and 27 MHz (÷4) on CLKOUTD → SDIV = 4. -/
+def gw1nr : GDev := ((Gen.gowin.find? (·.1 == "GW1NR")).map (·.2)).getD default
+example : gSearch gw1nr ⟨⟨27000000, 1⟩, ⟨0, 1⟩,
+    [⟨⟨108000000, 1⟩, ⟨0, 1⟩, ⟨1, 100⟩⟩, ⟨⟨27000000, 1⟩, ⟨0, 1⟩, ⟨1, 100⟩⟩]⟩ = .ok ⟨1, 4, 4, 4, 0, [0, 3]⟩ := by
+  decide +kernel
+
+/-! ## Oscillator dividers (`NXOSCA.compute_divisor`, `GW1NOSC`) -/
+
+/-- NXOSCA: the divisor is in range, meets the request, and is the first such in `range(lo, hi)`. -/
+theorem nxosc_divisor_sound_first (lo hi : Nat) (hf : Q) (o : Out) (dv : Nat) (h : nxOscDiv lo hi hf o = some dv) :
+    dv ∈ pyRange lo hi ∧ within (hf.divNat (dv + 1)) o = true ∧
+    ∃ pre suf, pyRange lo hi = pre ++ dv :: suf ∧ ∀ x ∈ pre, within (hf.divNat (x + 1)) o = false :=
+  nxOscDiv_some h
+
+/-- NXOSCA: "Bad OSC freq." only if no divisor of the declared range meets the request. -/
+theorem nxosc_divisor_complete (lo hi : Nat) (hf : Q) (o : Out) (h : nxOscDiv lo hi hf o = none) :
+    ∀ dv ∈ pyRange lo hi, within (hf.divNat (dv + 1)) o = false :=
+  nxOscDiv_none h
+
+/-- GW1NOSC: the divider is in range and `f(1−m) ≤ osc/div ≤ f(1+m)`; refusal only if no divider qualifies. -/
+theorem gwosc_divider_sound_complete (lo hi : Nat) (osc : Q) (o : Out) :
+    (∀ dv, gOscDiv lo hi osc o = some dv → dv ∈ pyRange lo hi ∧ gOscOk osc o dv = true) ∧
+    (gOscDiv lo hi osc o = none → ∀ dv ∈ pyRange lo hi, gOscOk osc o dv = false) :=
+  ⟨fun _ h => gOscDiv_some h, gOscDiv_none⟩
+
+example : nxOscDiv Gen.nxoscLo Gen.nxoscHi Gen.nxoscHf ⟨⟨10000000, 1⟩, ⟨0, 1⟩, ⟨5, 100⟩⟩ = some 42 := by decide +kernel
 
 end Litex.C20
